@@ -116,35 +116,39 @@ def check_vector(agg, values, name, setting, declared=None):
     if obs(v) != before or v.fingerprint() != fp:
         agg.violation(V("repr.vector", "object-changed-by-repr", case))
         return
+    judge_vector_text(agg, text, v, values, name, n, half, case)
+
+
+def judge_vector_text(agg, text, v, values, name, n, half, case, site="repr.vector"):
     if not isinstance(text, str):
-        agg.violation(V("repr.vector", "not-a-string", case))
+        agg.violation(V(site, "not-a-string", case))
         return
     lines = text.split("\n")
     L = len(values)
     if L == 0:
         if "empty" not in lines[-1] and not re.search(r"# 0 element", lines[-1]):
-            agg.violation(V("repr.vector", "empty-vector-footer-misstates", case, "# empty", lines[-1]))
+            agg.violation(V(site, "empty-vector-footer-misstates", case, "# empty", lines[-1]))
         else:
             agg.outcomes["vector-ok"] += 1
         return
     m = re.fullmatch(r"# (\d+) element vector <([^>]*)>", lines[-1])
     if not m:
-        agg.violation(V("repr.vector", "footer-not-parseable", case, "# N element vector <dtype>", lines[-1]))
+        agg.violation(V(site, "footer-not-parseable", case, "# N element vector <dtype>", lines[-1]))
         return
     if int(m.group(1)) != L:
-        agg.violation(V("repr.vector", "footer-count-wrong", case, L, int(m.group(1))))
+        agg.violation(V(site, "footer-count-wrong", case, L, int(m.group(1))))
         return
     if m.group(2) != dtype_token(v):
-        agg.violation(V("repr.vector", "footer-dtype-wrong", case, dtype_token(v), m.group(2)))
+        agg.violation(V(site, "footer-dtype-wrong", case, dtype_token(v), m.group(2)))
         return
     body = lines[:-2]
     if lines[-2] != "":
-        agg.violation(V("repr.vector", "no-blank-line-before-footer", case))
+        agg.violation(V(site, "no-blank-line-before-footer", case))
         return
     if name:
         head = repr(name) if needs_quote(name) else name
         if not body or body[0].strip() != head:
-            agg.violation(V("repr.vector", "header-does-not-show-stored-name", case, head, body[0] if body else None))
+            agg.violation(V(site, "header-does-not-show-stored-name", case, head, body[0] if body else None))
             return
         body = body[1:]
     if n % 2 == 1 and 2 * half < L <= n:
@@ -155,21 +159,69 @@ def check_vector(agg, values, name, setting, declared=None):
         sym = "truncated-preview-row-count-wrong" if L > 2 * half else "short-data-not-fully-shown"
         if half == 0 and len(body) == L + 1:
             sym = "zero-limit-prints-ellipsis-then-everything"
-        agg.violation(V("repr.vector", sym, case, len(want), len(body)))
+        agg.violation(V(site, sym, case, len(want), len(body)))
         return
     for idx, line in zip(want, body):
         if idx == "...":
             if line.strip() != "...":
-                agg.violation(V("repr.vector", "ellipsis-misplaced", case, "...", line))
+                agg.violation(V(site, "ellipsis-misplaced", case, "...", line))
                 return
         elif token(values[idx]) not in line:
-            agg.violation(V("repr.vector", "row-shows-wrong-value", dict(case, row=idx), token(values[idx]), line))
+            agg.violation(V(site, "row-shows-wrong-value", dict(case, row=idx), token(values[idx]), line))
             return
     if L > 2 * half:
         agg.nontrivial += 1
         agg.outcomes["vector-truncated-ok"] += 1
     else:
         agg.outcomes["vector-ok"] += 1
+
+
+
+
+def vector_histories(agg, setting):
+    """repr, edit in place (also with a value whose hash equals the old one's, so the fingerprint does not move), repr again"""
+    import serif
+    from serif import Vector, Table
+    n, half = limit_of(setting)
+    cases = [([-1, 5, 7], 0, -2), ([0.0, 1.5, 2.5], 0, -0.0), ([1, 2, 3], 1, 2.0), ([1, 2, 3], 1, True), (["a", "b", "c"], 2, "z"),
+             ([1, 2, 3], 0, None), ([5, 6, 7], 2, 8), ([-2, 5], 0, -1)]
+    for vals, idx, new in cases:
+        for how in ("vector", "column-view", "table-cell"):
+            agg.evals += 1; agg.transitions += 3; agg.states += 1; agg.nontrivial += 1
+            case = {"values": vals, "write": [idx, new], "through": how, "set_repr_rows": setting,
+                    "history": ["repr", "in-place write", "repr again"]}
+            serif.set_repr_rows(setting)
+            try:
+                if how == "vector":
+                    v = Vector(list(vals)); holder = v
+                else:
+                    holder = Table([Vector(list(vals), name="a"), Vector(list(range(len(vals))), name="b")])
+                    v = holder["a"]
+                repr(holder); repr(v)
+                if how == "table-cell":
+                    holder[idx, "a"] = new
+                else:
+                    v[idx] = new
+                v = holder["a"] if how != "vector" else v
+                text = repr(v)
+                ttext = repr(holder)
+            except Exception as e:
+                agg.violation(V("repr.after-write", "raises-" + type(e).__name__, case, None, repr(e)[:80]))
+                continue
+            finally:
+                serif.set_repr_rows(None)
+            cur = list(vals); cur[idx] = new
+            if not same_vals(list(v._underlying), cur):
+                continue
+            before_v = len(agg.viol)
+            judge_vector_text(agg, text, v, cur, v._name, n, half, case, site="repr.after-write")
+            if how != "vector" and len(cur) <= 2 * half and token(cur[idx]) not in ttext:
+                agg.violation(V("repr.after-write", "table-repr-shows-stale-cell", case, token(cur[idx]), ttext[:200]))
+
+
+def same_vals(a, b):
+    from mc.models import same_list
+    return same_list(a, b)
 
 
 def check_table(agg, coldefs, nrows, setting, per_table=None):
@@ -333,6 +385,8 @@ def run_unit(unit):
                         vals = list(base)
                         vals[posn] = sp
                         check_vector(agg, vals, None, setting)
+        if kind == "int":
+            vector_histories(agg, setting)
         agg.sample({"vector": kind, "set_repr_rows": setting, "lengths": lengths})
     else:
         _, width, setting = unit
